@@ -103,7 +103,7 @@ def generate(config="default", repo=REPO, quiet=True):
             sys.stderr.write("facts[%s] generated in %.1fs\n" % (config, time.time() - t0))
         # keep the cache small
         olds = sorted(glob.glob(os.path.join(CACHE, "facts-%s-*.json" % config)), key=os.path.getmtime)
-        for o in olds[:-4]:
+        for o in olds[:-int(os.environ.get("MSVERIF_CACHE_KEEP", "4")):]:
             os.remove(o)
         return out
     finally:
